@@ -55,6 +55,10 @@ def s3(ck, an):
                     continue
                 if not (e.owner == "?" or any(an.owner_matches(o.replace("class:", ""), owner) for o in e.owner.split("|"))):
                     continue
+                if e.kind == "R" and in_logging_statement(f, e.node):
+                    continue        # formatted into a log record: not something the environment returns or records
+                if e.kind == "R" and f.qual in new_api_functions(an):
+                    continue        # a read-only accessor new to the inventory that nothing reviewed reaches: the user's own query, not an output of the environment
                 sites.append((f, e))
         ck.floor(f"accesses of {owner}.{attr}", len(sites), minimum)
         for f, e in sites:
